@@ -175,6 +175,41 @@ def evaluate(form, n):
     return terms, rec.log
 
 
+class Interrupted(BaseException):
+    """Raised by a provider to interrupt a counting call (stands for Ctrl-C / a timeout)."""
+
+
+def through_the_cache(form, upto, interrupt_at=None):
+    """The rule's own get_terms (its level cache) with providers bound to truth, sizes 0..upto
+    in order.  With `interrupt_at` = k the k-th provider call raises Interrupted; the same rule
+    object is then asked again for every size.  Returns (list of terms or None, interrupted?)."""
+    rec = Recorder(form)
+    state = {"calls": 0, "at": interrupt_at}
+
+    def wrap(fn):
+        def provider(n):
+            state["calls"] += 1
+            if state["at"] is not None and state["calls"] == state["at"]:
+                state["at"] = None
+                raise Interrupted()
+            return fn(n)
+
+        return provider
+
+    saved = getattr(form, "subterms", None)
+    form.subterms = tuple(wrap(rec.child(i)) for i in range(len(form.children)))
+    interrupted = False
+    try:
+        try:
+            for n in range(upto + 1):
+                form.get_terms(n)
+        except Interrupted:
+            interrupted = True
+        return [form.get_terms(n) for n in range(upto + 1)], interrupted
+    finally:
+        form.subterms = saved
+
+
 def declared_shifts(form):
     """Shift per child as the form declares it (EquivalenceRule: read at child_idx)."""
     from comb_spec_searcher.strategies.rule import EquivalenceRule
